@@ -104,6 +104,13 @@ class SmtLibExecutionCache(object):
 
     def define(self, name: str, parameters: List[FNode], expression: Union[PySMTType, FNode, PartialType, str]):
         self.definitions[name] = (parameters, expression)
+        # The definition is the meaning of the name until a binder (let,
+        # quantifier, parameter of a definition) gives it another one
+        if len(parameters) == 0:
+            self.bind(name, expression)
+        else:
+            assert isinstance(expression, FNode)
+            self.bind(name, self._define_adapter(parameters, expression))
 
     def _define_adapter(self, formal_parameters: List[FNode], expression: FNode) -> Callable:
         def res(*actual_parameters):
@@ -114,13 +121,7 @@ class SmtLibExecutionCache(object):
 
     def get(self, name: str) -> Any:
         """Returns the last binding for 'name'"""
-        if name in self.definitions:
-            (parameters, expression) = self.definitions[name]
-            if len(parameters) == 0:
-                return expression
-            assert isinstance(expression, FNode)
-            return self._define_adapter(parameters, expression)
-        elif name in self.keys:
+        if name in self.keys:
             lst = self.keys[name]
             if len(lst) > 0:
                 return lst[-1]
